@@ -9,9 +9,9 @@
 #define G_MAX 4
 #endif
 static cJSON verif_all, verif_g[G_MAX];
-static char verif_gname[G_MAX][2];
+static char verif_gname[G_MAX][3];
 static cJSON verif_pg_arr, verif_pg[2];
-static char verif_pgname[2][2];
+static char verif_pgname[2][3];
 
 static void link_list(cJSON *arr, cJSON *nodes, unsigned n)
 {
@@ -26,10 +26,10 @@ void h_grp_bits(void)
 #ifdef G_FULL
 	__CPROVER_assume(n == G_MAX && m == 1); /* the full table: reaches the 32nd group */
 #endif
-	for (unsigned i = 0; i < G_MAX; i++) { verif_gname[i][0] = (char)nondet_u8(); verif_gname[i][1] = 0; verif_g[i].type = cJSON_String; verif_g[i].valuestring = verif_gname[i]; __CPROVER_assume(verif_gname[i][0] != 0); }
+	for (unsigned i = 0; i < G_MAX; i++) { verif_gname[i][0] = (char)nondet_u8(); verif_gname[i][1] = (char)nondet_u8(); verif_gname[i][2] = 0; verif_g[i].type = cJSON_String; verif_g[i].valuestring = verif_gname[i]; __CPROVER_assume(verif_gname[i][0] != 0); }
 	link_list(&verif_all, verif_g, n);
 	all_groups = nondet_bool() ? &verif_all : NULL;
-	for (unsigned i = 0; i < 2; i++) { verif_pgname[i][0] = (char)nondet_u8(); verif_pgname[i][1] = 0; verif_pg[i].valuestring = verif_pgname[i]; int t = nondet_int(); __CPROVER_assume(t == cJSON_String || t == cJSON_Number || t == cJSON_True); verif_pg[i].type = t; __CPROVER_assume(verif_pgname[i][0] != 0); }
+	for (unsigned i = 0; i < 2; i++) { verif_pgname[i][0] = (char)nondet_u8(); verif_pgname[i][1] = (char)nondet_u8(); verif_pgname[i][2] = 0; verif_pg[i].valuestring = verif_pgname[i]; int t = nondet_int(); __CPROVER_assume(t == cJSON_String || t == cJSON_Number || t == cJSON_True); verif_pg[i].type = t; __CPROVER_assume(verif_pgname[i][0] != 0); }
 	link_list(&verif_pg_arr, verif_pg, m);
 	bool arr_ok = nondet_bool();
 	if (!arr_ok) verif_pg_arr.type = cJSON_Object;
@@ -38,7 +38,7 @@ void h_grp_bits(void)
 	bool want = false;
 	if (arg != NULL && arr_ok && all_groups != NULL && j < n)
 		for (unsigned i = 0; i < m; i++)
-			if (verif_pg[i].type == cJSON_String && verif_pgname[i][0] == verif_gname[j][0]) want = true;
+			if (verif_pg[i].type == cJSON_String && verif_pgname[i][0] == verif_gname[j][0] && verif_pgname[i][1] == verif_gname[j][1]) want = true; /* names of 1 or 2 characters: equal iff both bytes equal */
 	__CPROVER_assert((((g >> j) & 1u) != 0) == want, "C08.grp.bit-j-set-iff-a-listed-name-equals-registered-group-j");
 	group_t has = nondet_u32(), wants = nondet_u32();
 	__CPROVER_assert(has_access(has, wants) == (all_groups == NULL || (has & wants) != 0), "C08.grp.access-is-non-empty-intersection");
@@ -47,4 +47,5 @@ void h_grp_bits(void)
 	VERIF_COVER(want && j == 0 && m == 2, "first group, two listed");
 #endif
 	VERIF_COVER(!want && g != 0, "other bits");
+	VERIF_COVER(!want && j < n && m > 0 && verif_pg[0].type == cJSON_String && verif_pgname[0][0] == verif_gname[j][0] && verif_pgname[0][1] == 0 && verif_gname[j][1] != 0, "listed name is a proper prefix of group j");
 }
